@@ -30,7 +30,7 @@ using namespace vf;
 namespace {
 
 struct Args {
-    std::string prop, mode = "sem", out, replay, minimize, workdir = ".", inflight;
+    std::string prop, mode = "sem", out, replay, minimize, workdir = ".", inflight, corpus, bytes;
     uint64_t seed = 1;
     long cases = 100;
     int maxsize = 100;
@@ -448,6 +448,8 @@ int main(int argc, char **argv) {
         else if (k == "--minimize") a.minimize = val();
         else if (k == "--workdir") a.workdir = val();
         else if (k == "--inflight") a.inflight = val();
+        else if (k == "--dump-corpus") a.corpus = val();
+        else if (k == "--bytes") a.bytes = val();
         else if (k == "--seed") a.seed = strtoull(val().c_str(), nullptr, 10);
         else if (k == "--cases") a.cases = atol(val().c_str());
         else if (k == "--maxsize") a.maxsize = atoi(val().c_str());
@@ -459,6 +461,15 @@ int main(int argc, char **argv) {
     }
 
     try {
+        if (!a.bytes.empty()) { // libFuzzer artifact (8 bytes per tape word) -> replay file
+            std::ifstream f(a.bytes, std::ios::binary);
+            std::string raw((std::istreambuf_iterator<char>(f)), std::istreambuf_iterator<char>());
+            Tape t(raw.size() / 8);
+            for (size_t i = 0; i < t.size(); ++i) memcpy(&t[i], raw.data() + 8 * i, 8);
+            if (!t.empty()) t[0] %= 101;
+            write_replay(a.out, a, t, "converted from a libFuzzer artifact", "");
+            return 0;
+        }
         if (!a.replay.empty()) return run_replay(a);
         if (!a.minimize.empty()) return run_minimize(a);
         if (a.prop.empty() || a.out.empty()) {
@@ -489,6 +500,7 @@ int main(int argc, char **argv) {
         bool harness_bug = false;
         std::string harness_msg;
         const size_t want_samples = 4;
+        size_t corpus_written = 0;
 
         bool ok = rc::check(a.prop + " (" + ENGINE.name + ")", [&]() {
             Tape t = *tape_gen(ENGINE.tape_len);
@@ -510,6 +522,12 @@ int main(int argc, char **argv) {
                 harness_msg = e.what();
                 last_fail_canon = t;
                 return;
+            }
+            if (!failing_seen && !a.corpus.empty() && r.ok && r.nontrivial && corpus_written < 300) {
+                char nm[64];
+                snprintf(nm, sizeof nm, "/seed-%05zu", corpus_written++);
+                std::ofstream cf(a.corpus + nm, std::ios::binary);
+                cf.write((const char *) canon.data(), canon.size() * sizeof(uint64_t));
             }
             if (!failing_seen) {
                 merge_result(st, r, canon, a.prop);
